@@ -1,9 +1,11 @@
 /* multichan.c — correspondence harness for include/fiber_multi_channel.h (C11).
  * fiber_multi_channel_t: bounded ring (capacity 2^p) under a fiber mutex, MANY senders and
  * MANY receivers; a sender blocks while the ring is full, a receiver while it is empty, both
- * on ONE intrusive list `waiters` (linked through fiber_t.scratch); the blocked fiber's lock
+ * on intrusive lists linked through fiber_t.scratch (ONE mixed list `waiters` before /repo
+ * commit b18179b, since then `waiters` for receivers and `send_waiters` for senders — the
+ * harness reports which in its init note); the blocked fiber's lock
  * is released by its successor (manager->mutex_to_unlock); every successful send/receive
- * wakes the list head.
+ * wakes the head of a list (the mixed one, resp. the list of the OTHER kind).
  *
  * usage: multichan <kernel threads> <log2 capacity> <script>
  * every script fiber is either a pure sender (ops s<v>: send the distinct positive int v,
@@ -42,6 +44,7 @@ VH_NOINSTR int main(int argc, char** argv) {
   int p2 = atoi(argv[2]);
   vh_parse(argv[3]);
   fiber_manager_init(k);
+  vh_dirty_heap();
   mc = fiber_multi_channel_create(p2);
   vr_reg(&mc->lock.counter, sizeof mc->lock.counter, "m.counter");
   vr_reg((void*)&mc->lock.waiters.head, 8, "m.head");
@@ -52,8 +55,15 @@ VH_NOINSTR int main(int argc, char** argv) {
   vr_reg(&mc->high, 8, "high");
   vr_reg(&mc->low, 8, "low");
   vr_reg(&mc->waiters, 8, "waiters");
+  /* list discipline of the build under test, read off the struct layout (no source hook):
+   * ONE mixed waiter list (the code before /repo commit b18179b) leaves exactly one pointer
+   * between `waiters` and `buffer`; TWO lists (receivers: `waiters`, senders: `send_waiters`)
+   * leave two.  The second list head is registered by offset so that this file compiles
+   * against either layout. */
+  int nlists = (int)((offsetof(fiber_multi_channel_t, buffer) - offsetof(fiber_multi_channel_t, waiters)) / sizeof(void*));
+  if (nlists >= 2) vr_reg((char*)&mc->waiters + sizeof(void*), 8, "send_waiters");
   for (uint32_t i = 0; i < mc->size; i++) vr_reg(&mc->buffer[i], 8, "buf%u", i);
-  vr_note("init multichan %u", mc->size);
+  vr_note("init multichan %u %d", mc->size, nlists >= 2 ? 2 : 1);
   vh_rt_run(k, do_op, 0);
   vr_finish("OK");
 }
